@@ -73,6 +73,7 @@ var shapeFocus = map[string]string{
 	"removerealm-during-auth":              "getAuthenticator authClient RemoveRealm AttachClient close actionChan",
 	"stalled-metacall-unregister":          "unregister syncUnregister metaPeer yield syncYield createMetaSession dealer register",
 	"stalled-callee-cancel-kill":           "syncCancel cancel INTERRUPT trySend dealer call_canceling",
+	"stalled-rawsocket-then-close":         "rawSocketPeer websocketPeer Close writerDone sendHandler writeFrame SetWriteDeadline close handleSession",
 	"caller-leaves-with-armed-timer":       "syncRemoveSession removeSession timerCancel timers close dealer syncCall onLeave",
 	csShape:                                "syncCancel cancel INTERRUPT trySend dealer call_canceling",
 	yrShape:                                "yield syncYield syncCancel sendResultDeadline yieldRetryDelay keepInvocation dealer",
@@ -96,7 +97,7 @@ var c06Shapes = []struct {
 	{"meta-in-flight", 6}, {"hello-goodbye", 6}, {"kill-then-close", 5}, {"drop-then-close", 5},
 	{"cancelled-stalled-metacall", 6}, {"publish-held-until-subscriber-closed", 5}, {"authz-held-at-close", 4},
 	{"join-in-burst", 5}, {"pending-calls", 6}, {"bad-realm-uri", 5}, {"removerealm-during-auth", 5},
-	{"caller-leaves-with-armed-timer", 8},
+	{"caller-leaves-with-armed-timer", 8}, {"stalled-rawsocket-then-close", 5},
 }
 
 type genOpts struct {
@@ -814,6 +815,35 @@ func genC06Base(o *genOpts, k int) *History {
 		pre = r.between(0, 14)
 	}
 	switch shape {
+	case "stalled-rawsocket-then-close":
+		// One or two rawsocket clients (transport.AcceptRawSocket over net.Pipe)
+		// subscribe and stop reading; a local session publishes until the
+		// peer's sender sits in conn.Write; optionally the session is killed;
+		// then Close / RemoveRealm: closing such a peer waits for its sender.
+		h.Realms = []string{"realm1"}
+		b.realmOn = map[string]bool{"realm1": true}
+		nRaw := 1 + r.intn(2)
+		for i := 0; i < nRaw; i++ {
+			h.Sessions = append(h.Sessions, SessionSpec{Realm: "realm1", Q: queueSizes[r.intn(2)], Raw: true})
+			b.track(true)
+		}
+		_, by := b.population(0, r.between(2, 3))
+		for i := 0; i < nRaw; i++ {
+			b.add(Op{Op: "subscribe", S: i, Topic: "t1"})
+			b.subs[i]["t1"] = true
+		}
+		for i := 0; i < nRaw; i++ {
+			b.add(Op{Op: "stall", S: i})
+			b.stalled[i] = true
+		}
+		b.add(Op{Op: "publish", S: by[0], Topic: "t1", Ack: true, Repeat: 6})
+		switch r.intn(3) {
+		case 0:
+			b.add(Op{Op: "kill", S: by[1], Target: 0})
+			b.gone(0)
+		case 1:
+			b.add(Op{Op: "sleep", Ms: sleeps[r.intn(len(sleeps))]})
+		}
 	case "caller-leaves-with-armed-timer":
 		// A call with a router-side timeout is pending at the callee; one of the
 		// two parties goes away (GOODBYE, dropped transport, wamp.session.kill,
@@ -1026,7 +1056,7 @@ func genC06Base(o *genOpts, k int) *History {
 func expandC06(o *genOpts, k int, base *History) []*History {
 	r := subRng(o.seed, "C06x", k)
 	kinds := []string{"Close"}
-	if o.thorough || base.Shape == "removerealm-during-auth" {
+	if o.thorough || base.Shape == "removerealm-during-auth" || base.Shape == "stalled-rawsocket-then-close" {
 		kinds = append(kinds, "RemoveRealm")
 	} else if r.chance(30) {
 		kinds = []string{"RemoveRealm"}
